@@ -61,6 +61,8 @@ type PContext struct {
 	originIfaceValue *hack.Iface
 	// proxyFunc 代理函数, 需要内存持续持有
 	proxyFunc reflect.Value
+	// retained 桩代码中嵌入了函数值地址的所有回调/代理函数, 只要接口变量还持有 mock 就必须保持可达(防止被 GC 回收)
+	retained []interface{}
 	// canceled 是否已经被取消
 	canceled bool
 }
@@ -115,6 +117,7 @@ func GenCallableMethod(ctx *IContext, apply interface{}, proxy PFunc) uintptr {
 		applyValue := reflect.ValueOf(apply)
 		mockFuncPtr := (*hack.Value)(unsafe.Pointer(&applyValue)).Ptr
 		methodCaller, err = MakeMethodCaller(mockFuncPtr)
+		ctx.p.retained = append(ctx.p.retained, apply)
 	} else {
 		// 生成桩代码,rdx 寄存器还原, 生成的调用将跳转到 proxy 函数
 		methodTyp := reflect.TypeOf(apply)
@@ -126,6 +129,7 @@ func GenCallableMethod(ctx *IContext, apply interface{}, proxy PFunc) uintptr {
 		mockFuncPtr := (*hack.Value)(unsafe.Pointer(&mockFunc)).Ptr
 		methodCaller, err = MakeMethodCallerWithCtx(mockFuncPtr, callStub)
 		ctx.p.proxyFunc = mockFunc
+		ctx.p.retained = append(ctx.p.retained, mockFunc)
 	}
 
 	if err != nil {
